@@ -619,8 +619,12 @@ func joinStates(a, b *State) *State {
 		n.mem[o] = out
 	}
 	for k, g := range a.guards {
-		if b.guards[k] == g {
+		if h := b.guards[k]; h == g {
 			n.guards[k] = g
+		} else if h != nil {
+			// the same symbol guarded in both states (a call re-analysed on a later fixpoint
+			// iteration): what holds under each outcome in both
+			n.guards[k] = &Guard{WhenNil: joinPartial(g.WhenNil, h.WhenNil), WhenNonNil: joinPartial(g.WhenNonNil, h.WhenNonNil)}
 		}
 	}
 	for o, la := range a.logs {
@@ -934,6 +938,37 @@ func (s *State) applyPartial(p *Partial) {
 }
 
 // partialOf extracts the immutable-entity part of a state.
+// joinPartial: the facts common to two partial states (an outcome that cannot happen in one of
+// them contributes nothing).
+func joinPartial(p, q *Partial) *Partial {
+	if p == nil || q == nil {
+		return nil
+	}
+	if p.dead {
+		return q
+	}
+	if q.dead {
+		return p
+	}
+	r := &Partial{itv: map[atomID]Itv{}, nils: map[symID]nilness{}, facts: map[string]*Lin{}}
+	for a, i := range p.itv {
+		if j, ok := q.itv[a]; ok {
+			r.itv[a] = i.join(j)
+		}
+	}
+	for y, n := range p.nils {
+		if m, ok := q.nils[y]; ok && m == n {
+			r.nils[y] = n
+		}
+	}
+	for k, f := range p.facts {
+		if _, ok := q.facts[k]; ok {
+			r.facts[k] = f
+		}
+	}
+	return r
+}
+
 func partialOf(s *State) *Partial {
 	if s == nil || s.dead {
 		return &Partial{dead: true}
